@@ -32,6 +32,10 @@ CLAIMED = {
          "bounds: block length <= 4 bytes, 2 blocks; CRC-32 uninterpreted; StoreBlock's duplicate check and the commit path (leveldb) are not encoded: the harness records the pending block / index row the way StoreBlock / writePendingAndCommit do; reopen is covered by C17's harness"),
  "C19": ("4 C19", "database/internal/treap (in-package overlay harness): sequences of Put/Delete with arbitrary one-byte keys and values and arbitrary distinct node priorities (math/rand draws are symbolic) on Mutable; every retained version of Immutable after later updates; Iterator Seek/First/Last/Next/Prev: Len, Size, Has, Get, ForEach and iteration agree with a ghost ordered map.",
          "bounds: 3 operations (4 thorough) + one optional delete for the iterator harness; keys and values one byte; priorities pairwise distinct (a 63-bit tie has negligible probability and cannot be replayed natively); iterator limits (start/limit keys) and ForceReseek not encoded"),
+ "C35": ("4 C35", "p2p.ReadMessage through the peer's real createMessage / CheckAndCreateMessage over a scripted in-memory net.Conn: 24 fully symbolic header bytes + 0..9 symbolic payload bytes, symbolic magic: a successful read implies magic equal, command NUL-padded and one of the base commands, declared length equal to the bytes consumed and within the command's MaxLength, checksum = first four bytes of double SHA-256 of the payload; no allocation above the 32 MiB message cap whatever the header declares. WriteMessage then ReadMessage returns an equal message for ping, pong, verack, version (all fields symbolic) and addr (one address).",
+         "bounds: payload <= 9 bytes available on the connection; base peer commands only (version, verack, getaddr, addr, ping, pong): the elanet / dpos createMessage switches and their payload decoders are C02's subject; SHA-256 uninterpreted with collision-freedom; Header (de)serialization goes through the engine's fixed-layout model of encoding/binary; the block send cache is not encoded; clock = arbitrary instants"),
+ "C36": ("4 C36", "httpjsonrpc.checkAuth with symbolic configured user/password (0..2 bytes each) and a symbolic Authorization header of the right length, one shorter or one longer, or absent: accepted <=> no credentials configured or header == 'Basic '+base64(user:pass) (base64 re-implemented in the harness; SHA-256 collision-free by assumption). Every handler that sets node settings, mines, submits transactions or uses wallet data (12 handlers, classes written from the statement) answers InvalidMethod before doing anything else whenever the configured service level (5 names + an unrecognised one) does not permit its class.",
+         "bounds: credentials <= 2+2 bytes; clientAllowed (net.SplitHostPort / ParseIP / IsLoopback string parsing) is NOT encoded — the IP filter clause is outside the claim; the handler list is the one in the harness (a newly added privileged handler without a gate is not detected); decided by cvc5 for the auth harness"),
 }
 
 # thorough tier (deeper bounds + every unsat cross-checked with z3 5.1.0) is
@@ -60,8 +64,6 @@ NA = {
  "C30": "needs BlockChain.ReorganizeChain against a database-backed chain: not encodable; IsIrreversible kernel not built",
  "C33": "Schnorr aggregate verification is elliptic-curve arithmetic (see C05); single-use half is a history property; not built",
  "C34": "mempool structures are map/slice heaps driven by histories; not built in this session",
- "C35": "Header.Serialize/Deserialize go through encoding/binary on a struct (reflection), which the engine cannot encode; checksum is SHA-256",
- "C36": "net/http request handling, string/IP parsing: outside what the engine encodes",
  "C37": "ECDSA/Schnorr signing and base58: elliptic-curve and big-radix string arithmetic out of solver reach",
  "C38": "a property of which random source is CALLED (program structure), not of input/output values: no assertion over symbolic inputs expresses it",
  "C40": "data-race freedom under arbitrary schedules: the engine is sequential; concurrency is a stated weak target for this technique",
